@@ -10,5 +10,6 @@ CONSTANTS
   TrustScanOrder = FALSE
   SwapBeforeApply = FALSE
   BatchOnSharedCopy = FALSE
+  BuildTrustsStorage = FALSE
 INVARIANT CatchUpReachesHead
 CHECK_DEADLOCK FALSE
